@@ -172,7 +172,8 @@ def deferred_temporaries(ctx, n):
 
 def run(ctx):
     import logging
-    logging.getLogger("deep").setLevel(logging.CRITICAL + 1)
+    from ..lib.quiet import quiet_logging
+    quiet_logging()
     ctx.rule = ("as C05, weighted to sharing and cycles: containers tied back into themselves, the same value under several "
                 "names, watches whose value is already in the frame / first seen by the watch, budgets from 0 to 1000, "
                 "and (4%) a local bound to the frame's own locals() mapping. Non-trivial: at least one object is reached "
